@@ -132,3 +132,21 @@ Theorem C09_source_decompression_front_end_never_panics :
      (forall x w', exists v, d x w' = PVal v) -> exists v, G_maybeDeflate inflate W data max_size d w = PVal v).
 Proof. exact front_end_never_panics. Qed.
 Print Assumptions C09_source_decompression_front_end_never_panics.
+
+(* Source tie: decryptAssertions itself, re-translated from /repo's decode_response.go on every run (GenDecTree.v) with an
+   explicit panic outcome at panic("unable to remove encrypted assertion"), at encryptedElement.Parent().Tag, at the use of
+   the nil-able certificate and at AddChild(doc.Root()): for every tree, certificate outcome, crypto and parse behaviour
+   the translated body never panics, and what it hands back is the hand-written model's result (error texts aside) *)
+From V Require Import Time Types Profile Response GenPrelude GenPreludeD GenPreludeT GenPreludeE GenDecrypt GenDecTree P_GenTree P_GenDecTree.
+Theorem C09_source_decryptAssertions_never_panics :
+  forall parse rsa_oaep rsa_pkcs1 gcm_open cbc_decrypt (sha1_hex : string -> string) (get_cert : res sp_cert) cfg now el,
+    G_decryptAssertions parse rsa_oaep rsa_pkcs1 gcm_open cbc_decrypt cfg now el (res_some get_cert) <> PPanic.
+Proof. exact G_decryptAssertions_never_panics. Qed.
+Print Assumptions C09_source_decryptAssertions_never_panics.
+
+Theorem C09_source_decryptAssertions_is_the_model :
+  forall parse rsa_oaep rsa_pkcs1 gcm_open cbc_decrypt sha1_hex (get_cert : res sp_cert) cfg now el,
+    norm_pm (da_result (G_decryptAssertions parse rsa_oaep rsa_pkcs1 gcm_open cbc_decrypt cfg now el (res_some get_cert)))
+    = PVal (norm_res (decrypt_assertions (chain parse rsa_oaep rsa_pkcs1 gcm_open cbc_decrypt sha1_hex get_cert) el)).
+Proof. exact G_decryptAssertions_is_model. Qed.
+Print Assumptions C09_source_decryptAssertions_is_the_model.
